@@ -1481,7 +1481,8 @@ def run_c06(ctx):
             pairs.append((ctx.case("witness-" + fid, text, gen.DEFAULT_CFG), ctx.case("witness-" + fid + "-relayout", w["relayout"], gen.DEFAULT_CFG), {"gap_class": "literal"}))
     run_pairs(ctx, pairs, compare)
     sample = [ctx.case("trace", t, gen.random_cfg(rng)) for t, _, _ in wellformed_texts(ctx, 20)[:: ctx.n(4, 1)]]
-    ctx.run_stream(sample, units=["spacing", "fmtdata"])
+    # (the parser's layout independence is a theorem about the grammar model: the model is tied here too)
+    ctx.run_stream(sample, units=["spacing", "fmtdata", "grammar"])
     ctx.hypotheses["H-P2 / H-W2: parser and wrapper do not consult the original layout (except the documented reads)"] = "relayout metamorphic pairs on the real formatter; inventory of leading-whitespace reads proved equal to the modelled set"
 
 
